@@ -533,12 +533,60 @@ func (c c17C_bn254) mpcsetup(a kvs) string {
 			g1tail = c.mpcPowers(t1, n+1)
 		case "sizeDown":
 			g1tail = c.mpcPowers(t1, n-1)
+		case "nosub": // see below: the honest contribution is tampered in memory
 		default:
 			return "bad-op"
 		}
 		var next kzg.MpcSetup
 		if _, err := next.ReadFrom(bytes.NewReader(c.mpcBytes(com, pok, g1tail, g2, nextChal))); err != nil {
 			return "0" // rejected at deserialisation
+		}
+		if a["mut"] == "nosub" {
+			// SUBGROUP MEMBERSHIP of every element of the contribution: sub1 = flags of [x]₁ … [x^{n−1}]₁, sub2 of [x]₂, subc / subp
+			// of the update proof's commitment (G1) and proof of knowledge (G2). Flag 0: a point of cofactor order is added to
+			// the honest element IN MEMORY (the default Decoder would refuse it): on the curve, every pairing equation of the
+			// ceremony still holds for a G1 element (e(P + T, Q) = e(P, Q)), only the explicit subgroup check can reject it.
+			sub1 := bigL(a["sub1"])
+			srs := c17Field[kzg.SRS](&next, "srs")
+			proof := c17Field[mpcsetup.UpdateProof](&next, "proof")
+			if len(sub1) != len(srs.Pk.G1)-1 {
+				return "bad-op"
+			}
+			seed := int(new(big.Int).Mod(m, big.NewInt(5)).Int64())
+			addT1 := func(p *curve.G1Affine) bool {
+				t, ok := c.torsionG1(seed)
+				if ok {
+					p.Add(p, &t)
+				}
+				return ok && p.IsOnCurve() && !p.IsInSubGroup()
+			}
+			addT2 := func(p *curve.G2Affine) bool {
+				t, ok := c.torsionG2(seed)
+				if ok {
+					p.Add(p, &t)
+				}
+				return ok && p.IsOnCurve() && !p.IsInSubGroup()
+			}
+			for k := range sub1 {
+				if sub1[k].Sign() == 0 && !addT1(&srs.Pk.G1[k+1]) {
+					return "bad-op"
+				}
+			}
+			if a.big("sub2").Sign() == 0 && !addT2(&srs.Vk.G2[1]) {
+				return "bad-op"
+			}
+			if a.big("subc").Sign() == 0 {
+				// the proof of knowledge is redone for the tampered commitment (its base is a hash of the commitment): the
+				// forger knows x, and e(C + T, R') = e(G₁, [x]R')
+				pc := c17Field[curve.G1Affine](proof, "contributionCommitment")
+				if !addT1(pc) {
+					return "bad-op"
+				}
+				*c17Field[curve.G2Affine](proof, "contributionPok") = pokOf(*pc, x, chal)
+			}
+			if a.big("subp").Sign() == 0 && !addT2(c17Field[curve.G2Affine](proof, "contributionPok")) {
+				return "bad-op"
+			}
 		}
 		return c17Verdict(prev.Verify(&next))
 	case "update": // mpcsetup.UpdateValues / UpdateProof.Verify on explicit representations
@@ -596,6 +644,27 @@ func (c c17C_bn254) mpcsetup(a kvs) string {
 				rp = append(rp, t2)
 			}
 			proof = mpcsetup.UpdateValues(&mf, chal, dst, rp...)
+		case "nosub": // subc / subp = 0: the proof's commitment (G1) / proof of knowledge (G2) gets a component of cofactor order
+			seed := int(new(big.Int).Mod(m, big.NewInt(5)).Int64())
+			if a.big("subc").Sign() == 0 {
+				t, ok := c.torsionG1(seed)
+				if !ok {
+					return "bad-op"
+				}
+				p := c17Field[curve.G1Affine](&proof, "contributionCommitment")
+				p.Add(p, &t)
+				// the proof of knowledge redone for the tampered commitment (its base is a hash of the commitment)
+				base := c.mpcPokBase(*p, chal, dst)
+				c17Field[curve.G2Affine](&proof, "contributionPok").ScalarMultiplication(&base, x)
+			}
+			if a.big("subp").Sign() == 0 {
+				t, ok := c.torsionG2(seed)
+				if !ok {
+					return "bad-op"
+				}
+				p := c17Field[curve.G2Affine](&proof, "contributionPok")
+				p.Add(p, &t)
+			}
 		default:
 			return "bad-op"
 		}
